@@ -14,3 +14,11 @@ func VerifSetSigCache(hash common.Hash, sig []byte) {
 	sigCache.Hash = hash
 	sigCache.Sig = sig
 }
+
+// VerifLastSig reads the last-signed record of a Confirmer (C19 harness: concurrent SetLastSig calls must leave the
+// record at the highest block, as every sequential order does).
+func (c *Confirmer) VerifLastSig() (uint32, common.Hash) {
+	c.lastSigLock.Lock()
+	defer c.lastSigLock.Unlock()
+	return c.lastSig.Height, c.lastSig.Hash
+}
